@@ -13,6 +13,7 @@ import (
 	"strconv"
 	"strings"
 	"sync"
+	"syscall"
 	"testing"
 	"time"
 	"unicode/utf8"
@@ -368,14 +369,59 @@ func violation(pid, path, why string) {
 // test process dies: a panic on a goroutine of the library that nothing
 // recovers kills the process, and with it the verdict. The driver turns such a
 // death into a violation and this file into its replay (DESIGN.md 2.7).
-var crumbPath = os.Getenv("VERIF_CRUMB")
+//
+// The file is a shared memory mapping (a store per case, no system call): the
+// kernel keeps the pages when the process dies. Layout: length of the JSON as
+// a little-endian uint32, then the JSON of a replay file.
+var (
+	crumbPath = os.Getenv("VERIF_CRUMB")
+	crumbMem  []byte
+	crumbOnce sync.Once
+)
+
+const crumbSize = 1 << 20
 
 func crumb(pid, sub string, caseJSON []byte) {
 	if crumbPath == "" {
 		return
 	}
-	b, _ := json.Marshal(replayFile{Property: pid, Sub: sub, Failure: "the test process died while this case was running", Tag: "crash", Case: caseJSON})
-	os.WriteFile(crumbPath, b, 0o644)
+	crumbOnce.Do(func() {
+		f, err := os.OpenFile(crumbPath, os.O_RDWR|os.O_CREATE|os.O_TRUNC, 0o644)
+		if err != nil {
+			return
+		}
+		defer f.Close()
+		if f.Truncate(crumbSize) != nil {
+			return
+		}
+		m, err := syscall.Mmap(int(f.Fd()), 0, crumbSize, syscall.PROT_READ|syscall.PROT_WRITE, syscall.MAP_SHARED)
+		if err == nil {
+			crumbMem = m
+		}
+	})
+	if crumbMem == nil {
+		return
+	}
+	binary.LittleEndian.PutUint32(crumbMem, 0)
+	const head = `{"property":"`
+	n := 4
+	put := func(s string) bool {
+		if n+len(s) > len(crumbMem) {
+			return false
+		}
+		n += copy(crumbMem[n:], s)
+		return true
+	}
+	if !put(head) || !put(pid) || !put(`","sub":"`) || !put(sub) || !put(`","failure":"the test process died while this case was running","tag":"crash","case":`) {
+		return
+	}
+	if n+len(caseJSON)+1 > len(crumbMem) {
+		return
+	}
+	n += copy(crumbMem[n:], caseJSON)
+	crumbMem[n] = '}'
+	n++
+	binary.LittleEndian.PutUint32(crumbMem, uint32(n-4))
 }
 
 // sub-check registration + generic runner ----------------------------------
